@@ -289,6 +289,12 @@ def gen_c10(ctx):
         for g in CLASS_CODES:
             cfg = Cfg(rng, "C10", ttype=t); c0 = str(cfg)
             yield line(c0, [op_connect(rng, cfg, user=(b"u", b"p"), greeting=[rnd_reply(rng, g)])])
+        # a preliminary 120 followed by every class of greeting, with credentials: what follows the 120 decides
+        for g in CLASS_CODES:
+            if g != 120:
+                cfg = Cfg(rng, "C10", ttype=t); c0 = str(cfg)
+                yield line(c0, [op_connect(rng, cfg, user=(b"u", b"p"), greeting=[rnd_reply(rng, 120), rnd_reply(rng, g)])] +
+                           ([] if g == 421 else [op_simple(rng, cfg, "noop", 200)]))
         for c1 in CLASS_CODES:
             for c2 in (250, 553):
                 cfg = Cfg(rng, "C10", ttype=t); c0 = str(cfg)
@@ -407,6 +413,24 @@ def gen_c14(ctx):
             ops.append(op_disc(rng, cfg, graceful=True))
             yield line(c0, ops)
     ctx["scopes"].append("re-entrant removal: observer i unregisters observer j from inside its next callback, 8 (i, j) pairs of four observers x 4 positions in a history (before connect, before a simple call, before a download, twice)")
+    # a cancelled transfer whose server had already completed it: the completion reply is taken as the answer to ABOR and
+    # ABOR's own answer arrives right behind it (same segment) - whatever the call returns, the observers were told
+    for mode in "pa":
+        for rfc in (0, 1):
+            for kind in ("get", "put"):
+                for tail in ((226,), (226, 226), (225,)):
+                    cfg = Cfg(rng, "C14", mode=mode, rfc=rfc, ttype="I", ip=4); c0 = str(cfg)
+                    # the 150 arrives alone (cut after its 8 bytes), the completion reply is still in flight when ABOR is sent
+                    main = [R(b"150 ok"), rnd_reply(rng, 226)]
+                    abor = ",".join(rnd_reply(rng, c) for c in tail)
+                    if kind == "get":
+                        o = "get:%s:ok:p01@" % H(b"f") + "/".join([setup_groups(rng, cfg, None), ",".join(main + ["Dsend:g7.9000::c", "c8.4000"]), abor])
+                    else:
+                        o = "put:STOR:%s:g8.9000:-:ok:p01@" % H(b"f") + "/".join([setup_groups(rng, cfg, None), ",".join(main + ["Drecv:-:c", "c8.4000"]), abor])
+                    yield line(c0, ["addobs:0", "addobs:1"] + start(rng, cfg, login=False) + [o])
+                    # ... and the same with the server's bytes coalescing in the client's receive queue (one network read)
+                    yield line(c0 + ",merge=1", ["addobs:0", "addobs:1"] + start(rng, cfg, login=False) + [o])
+    ctx["scopes"].append("cancelled transfers whose server had already sent the completion reply, ABOR answered by 226 / 226+226 / 225 right behind it x four methods x both directions, two observers")
     for _ in range(n_of(ctx, 400, 4000)):
         cfg = Cfg(rng, "C14"); c0 = str(cfg)
         ops = []
